@@ -48,15 +48,12 @@ def precedence(ctx, rule='P4'):
         import C10 as _c10
         E = effects.get(fx)
         pi_idx = [i for i in range(1, pf.arg_count + 1) if pf.locals[i]['ty'].replace(' ', '') == '&mutparse::ParseInfo']
-        sws = [s for s in q.switches_on(pf, lambda d: d[0] == 'discr') if 'OldPalette04' in _c10.switch_variants(pf, s).values()]
-        if len(sws) == 1 and pi_idx:
-            sw = sws[0]
-            names = _c10.switch_variants(pf, sw)
-            tm = pf.blocks[sw]['term']
+        arms = common.dispatch_arms(pf)
+        if arms is None:
+            ctx.fail(pf.name + '|' + rule + '|no-dispatch', 'no ChunkType dispatch found in parse_frame')
+        if arms is not None and pi_idx:
             total = 0
-            for v, s in tm['targets']:
-                kind = names.get(v)
-                reg = q.edge_region(pf, sw, s)
+            for kind, s, reg, sw in arms:
                 ws = [w for w in E.writes(pf, blocks=reg) if effects.root_of(w[0]) == (pi_idx[0], ['palette'])]
                 total += len(ws)
                 if kind == 'Palette':
